@@ -1066,6 +1066,17 @@ pub(crate) mod alloc {
             - BlsScalar::one())
             * domain.size_inv;
 
+        // At a domain point `w^i` the barycentric formula reads `0 / 0`; the
+        // interpolated polynomial takes the value `evaluations[i]` there.
+        if numerator == BlsScalar::zero() {
+            return domain
+                .elements()
+                .zip(evaluations.iter())
+                .find(|(element, _)| element == point)
+                .map(|(_, evaluation)| *evaluation)
+                .unwrap_or(BlsScalar::zero());
+        }
+
         // Indices with non-zero evaluations
         #[cfg(not(feature = "std"))]
         let range = (0..evaluations.len()).into_iter();
